@@ -28,7 +28,7 @@ import tlc
 BAD = 9
 ROLES = ("a", "b", "c")
 NPOOL = 8
-TIMEOUT = 60
+TIMEOUT = 120
 DEV = "NoRollbackOnPartialPush"
 
 
@@ -302,7 +302,7 @@ class Run:
                 # every Var in every live thread
                 exp_obs = {}
                 for u, o in enumerate(s["obs"], start=1):
-                    if o["st"] != "live":
+                    if o["st"] != "live" or note is not None:
                         continue
                     self.q[u].put(("obs",))
                     rep = self.expect("obs")
@@ -313,9 +313,14 @@ class Run:
                     r["obs"].append({"u": u, "vals": got})
                     exp_obs[u] = o["vals"]
                 rec.append(r)
+                if note is not None:
+                    # the real side did something the protocol has no word for: stop here
+                    if mismatch is None:
+                        mismatch = {"step": si, "what": "outcome", "expected": s["ok"], "observed": r["note"]}
+                    break
                 if mismatch is None:
-                    if r["ok"] != s["ok"] or note is not None:
-                        mismatch = {"step": si, "what": "outcome", "expected": s["ok"], "observed": r.get("note", r["ok"])}
+                    if r["ok"] != s["ok"]:
+                        mismatch = {"step": si, "what": "outcome", "expected": s["ok"], "observed": r["ok"]}
                     else:
                         for o in r["obs"]:
                             if o["vals"] != exp_obs[o["u"]]:
@@ -407,7 +412,7 @@ def generate(chk):
         chk.machinery("Bindings_Gen(simulate): %s\n%s" % (r2.violated, r2.error_trace()[:1500]))
     sim = sorted({json.dumps(h, sort_keys=True) for h in r2.tagged("BEH")})
     rnd = random.Random(chk.seed)
-    cap = 3000 if chk.tier == "quick" else 40000
+    cap = 3000 if chk.tier == "quick" else 20000
     if len(sim) > cap:
         sim = rnd.sample(sim, cap)
     uniq = sorted({json.dumps(h, sort_keys=True) for h in ex})
